@@ -4,7 +4,7 @@ namespace Xmp.Tick
 open Xmp.Gen.PlayerConsts
 
 theorem minTicks_eq : minTicks = 8 := by decide
-theorem capTicks_eq : capTicks = 12292 := by decide
+theorem capTicks_eq : capTicks = 6146 := by decide
 
 /-- `libxmp_mixer_get_ticksize` answers −1 or at least `1 << ANTICLICK_SHIFT` frames -/
 theorem getTicksize_range (freq tfN tfD rrN rrD bpm : Int) :
